@@ -281,16 +281,15 @@ PROPS["C02"] = {
         J(c02 + "Plain", ops=3, clear=0),
         J(c02 + "Plain", ops=2, clear=1, covers=["cleared"]),
         J(c02 + "Zero", ops=2, covers=["zero cleared"]),
-        J(c02 + "Cmp", ops=3, clear=0),
+        J(c02 + "Cmp", ops=2, clear=1, covers=["cleared"]),
     ],
     "thorough": [
-        J(c02 + "Plain", ops=4, clear=0, cfg={"MaxPaths": 60000000}),
-        J(c02 + "Plain", ops=3, clear=1, covers=["cleared"]),
+        J(c02 + "Plain", ops=3, clear=1, covers=["cleared"], cfg={"MaxPaths": 60000000}),
         J(c02 + "Zero", ops=3, covers=["zero cleared"]),
-        J(c02 + "Cmp", ops=4, clear=0, cfg={"MaxPaths": 60000000}),
+        J(c02 + "Cmp", ops=3, clear=1, covers=["cleared"], cfg={"MaxPaths": 60000000}),
     ],
-    "bounds": {"quick": "SkipList[int,int] and SkipListWithCmp[int,int]: 3 arbitrary operations (Set/SetNx/SetX/Remove/read, Clear in a 2-operation variant) with symbolic 64-bit keys and values and symbolic tower heights (every outcome of the random level choice, including towers that grow the top level and removals that shrink it), followed by a full observation: Len, Keys, Values, Head, Get/GetNode of a fresh symbolic key, Range and All with early stop after 1 or 2 callbacks, RangeWithStart(s) and RangeWithRange(s,e) for fresh symbolic bounds; comparator family: order of (key xor m) for an arbitrary 64-bit m, ascending or descending; zero-value SkipList: optional Clear first, then 2 arbitrary operations incl. Clear and the full observation",
-               "thorough": "4 operations (3 with Clear)"},
+    "bounds": {"quick": "SkipList[int,int]: 3 arbitrary operations (Set/SetNx/SetX/Remove/read; Clear in a 2-operation variant), SkipListWithCmp[int,int]: 2 arbitrary operations incl. Clear; with symbolic 64-bit keys and values and symbolic tower heights (every outcome of the random level choice, including towers that grow the top level and removals that shrink it), followed by a full observation: Len, Keys, Values, Head, Get/GetNode of a fresh symbolic key, Range and All with early stop after 1 or 2 callbacks, RangeWithStart(s) and RangeWithRange(s,e) for fresh symbolic bounds; comparator family: order of (key xor m) for an arbitrary 64-bit m, ascending or descending; zero-value SkipList: optional Clear first, then 2 arbitrary operations incl. Clear and the full observation",
+               "thorough": "3 operations incl. Clear for both lists; zero value: 3 operations"},
     "outside": ["more operations", "key types other than int (same generic code)", "comparators that are not injective total orders of this family"],
     "assumptions": ["math/rand outputs are arbitrary 64-bit words (stub); the comparator is a strict total order on keys"],
     "level_text": "Bounded symbolic model checking of both skip lists against a branch-free association-list model: keys, values, query bounds and the random words that determine tower heights are symbolic, so every relative key order and every tower-height assignment within the bound is explored and every observer is decided by the solver.",
